@@ -286,6 +286,9 @@ def r2(ctx):
         ctx.check(k.k in (ORD, PARAM), f"{STC}:result-order",
                   f"the table part of the result does not keep the order of the topological sort: {k.why}",
                   f"result follows topological.sort ({k.why})", f"{f.module.path}:{rets[0].lineno}")
+    else:
+        ctx.violation(f"{STC}:result-order", "cannot be established: the result is not `<sorted tables> + [(None, ..)]`",
+                      f"{f.module.path}:{rets[0].lineno}")
     # (b) direction + (c) None entry handled
     for cname, want in (("SchemaGenerator", 0), ("SchemaDropper", 1)):
         m = ctx.func(f"{DDL}::{cname}.visit_metadata")
